@@ -438,7 +438,14 @@ fn c16_gen(seed: u64, k: u64) -> C16Case {
         }
         1 if n == 3 => {
             // leader mismatch: follower f names the other follower as leader (still regards itself as follower)
-            let g = followers.iter().copied().find(|x| *x != f).unwrap();
+            // ... or an index that differs from the leader's only above bit 31
+            let g = if rng.random_bool(0.4) { leader + (1usize << 32) } else { followers.iter().copied().find(|x| *x != f).unwrap() };
+            ps.leader_at[f] = Some(g);
+            (format!("leader-mismatch: follower {f} names {g}, the leader is {leader}"), vec![f, leader])
+        }
+        1 if rng.random_bool(0.5) => {
+            // n = 2: no third party to name; a leader index that differs from the leader's only above bit 31
+            let g = leader + (1usize << 32);
             ps.leader_at[f] = Some(g);
             (format!("leader-mismatch: follower {f} names {g}, the leader is {leader}"), vec![f, leader])
         }
@@ -474,7 +481,7 @@ impl Check for C16 {
         "exploration"
     }
     fn rule(&self) -> String {
-        "each evaluation is one simulated execution (n in {2,3}) in which exactly one party's policy is incompatible: a different program at one follower (another template, or a near miss: the same characters with the line break after a `//` comment moved so that the function differs, or a difference in the last characters only), a different leader named by a follower that still regards itself as a follower (n=3), or an ill-typed program at any party; in half of the program mismatches the follower's client re-submits its schedule request with the leader's program (refused as a duplicate; it must not make the pair compatible); the explorer chooses the arrival order (validate before or after that follower's schedule) and all other RPC orders. Oracle: the schedule calls of that follower and of the leader (ill-typed: of that party) end with an error, no destination is sent a successful result, zero MPC messages are exchanged, no task panics. distinct = (mismatch kind, configuration, coordination order) hash".into()
+        "each evaluation is one simulated execution (n in {2,3}) in which exactly one party's policy is incompatible: a different program at one follower (another template, or a near miss: the same characters with the line break after a `//` comment moved so that the function differs, or a difference in the last characters only), a different leader named by a follower that still regards itself as a follower (another party, or an index that differs from the leader's only above bit 31), or an ill-typed program at any party; in half of the program mismatches the follower's client re-submits its schedule request with the leader's program (refused as a duplicate; it must not make the pair compatible); the explorer chooses the arrival order (validate before or after that follower's schedule) and all other RPC orders. Oracle: the schedule calls of that follower and of the leader (ill-typed: of that party) end with an error, no destination is sent a successful result, zero MPC messages are exchanged, no task panics. distinct = (mismatch kind, configuration, coordination order) hash".into()
     }
     fn assumptions(&self) -> Vec<String> {
         vec!["two self-declared leaders are out of scope (they wait for each other until the client's RPC timeout)".into(), "a compatible third party may keep waiting for a run request; that is not flagged here".into()]
